@@ -21,7 +21,7 @@ package lint
 // C20: lint exits 0 only if no annotation was collected; printed annotations always give a non-zero status.
 //@ func run(ctx, container, flags) (retErr)
 //@   property C20
-//@   modifies heap, ghost.annotPrinted, ghost.fail, ghost.wfail, ghost.sinkPaths, ghost.sinkBuckets, ghost.lastPutOptions, ghost.buf, ghost.hdrVals
+//@   modifies heap, ghost.annotPrinted, ghost.fail, ghost.wfail, ghost.sinkPaths, ghost.sinkBuckets, ghost.lastPutOptions, ghost.buf, ghost.hdrVals, ghost.hdrKeys
 //@   ensures printed-nonzero: ghost.annotPrinted && !old(ghost.annotPrinted) ==> retErr != nil
 //@   assert before "return nil" clean-only-when-empty: len(allFileAnnotations) == 0
 //@   assert before "return bufctl.ErrFileAnnotation" printed-before-100: ghost.annotPrinted
